@@ -1,0 +1,9 @@
+//go:build verif
+
+// Contracts for gvc (/verif). Comment-only: this file adds no declarations.
+
+package strutil
+
+// C17 sweep: subsequence matching never panics, also for strings that are not valid UTF-8.
+//@ func HasSubseq
+//@   props C17
